@@ -53,13 +53,18 @@ func SessionC10(t *tape.Tape) *core.RunResult {
 			break
 		}
 		// what comes next
-		switch t.Weighted([]int{10, 2, 2, 3}) {
+		switch t.Weighted([]int{10, 2, 2, 3, 2}) {
 		case 1:
 			s.deliver("ucinewgame")
 			res.Probe("ucinewgame")
 			continue
 		case 2:
 			s.deliver("isready")
+			continue
+		case 4:
+			// options changed in mid-game: they must not touch the game
+			s.deliver([]string{"setoption name Hash value 1", "setoption name Hash value 0", "setoption name Hash value 2", "setoption name Depth value 2", "setoption name Noise value 0", "setoption name OwnBook value false", "setoption name OwnBook value true"}[t.Choose(7)])
+			res.Probe("setoption-between-positions")
 			continue
 		case 3:
 			// a search between the set-ups; it is left parked mid-tree (or finished) when the next command arrives
